@@ -649,8 +649,7 @@ def worker_dev(col, item, tier, seed):
             run_one(col, which, scn, [0] * i + [alt], remaining, boundary_only=remaining > 0)
 
 
-THOROUGH_DEEP_WORKFLOWS = ('chain2', 'pair', 'fanin', 'xstage', 'observer', 'observer-2subj', 'replica', 'agg-plain', 'dowhile',
-                           'chain2-zero')
+THOROUGH_DEEP_WORKFLOWS = ('chain2', 'pair', 'fanin', 'xstage', 'observer')
 
 
 def select_deep(scns, tier, seed):
